@@ -25,10 +25,10 @@ from .. import tlc
 from ..core import Ctx, use_repo
 
 SPEC = 'spec/proto'
-MC_CFGS = ['cuts', 'three', 'nr', 'fw', 'hostile', 'pay']
+MC_CFGS = ['cuts', 'three', 'nr', 'fw', 'hostile', 'pay', 'struct']
 DEVS = {            # deviation -> configuration in which TLC must find the violation
     'discard': 'cuts', 'metakeys': 'hostile', 'chanunhash': 'hostile',
-    'tilde': 'pay', 'valuekey': 'pay', 'errsilent': 'pay',
+    'tilde': 'pay', 'valuekey': 'pay', 'errsilent': 'pay', 'namesniff': 'struct', 'bracecount': 'struct',
 }
 ACTIONS = ['Send', 'Read', 'Reply', 'Hostile', 'Quiet', 'Execute', 'Reject', 'Deliver', 'HDispatch', 'HValue', 'HChan', 'Probe']
 HOSTILE_CLASSES = ['trunc', 'types', 'missing', 'oversize', 'delim', 'chanlist', 'vforge', 'vtypes', 'utf8']
@@ -167,7 +167,7 @@ def random_script(rnd, quick):
         r = rnd.random()
         if r < 0.35 and nsend < (4 if quick else 8):
             size = 'b' if rnd.random() < 0.2 else 's'
-            pay = rnd.choice(['plain'] * 8 + ['tilde', 'valkey'])
+            pay = rnd.choice(['plain'] * 6 + ['tilde', 'valkey', 'wirekey', 'brace', 'struct', 'struct'])
             fwk = rnd.choice(['ok'] * 4 + ['sblk', 'rblk'])
             script.append(('S', size, pay, fwk, 0, 1 if rnd.random() < 0.25 else 0))
             nsend += 1
@@ -181,7 +181,7 @@ def random_script(rnd, quick):
         elif r < 0.85 and outstanding:
             sid = rnd.choice(outstanding)
             outstanding.remove(sid)
-            script.append(('P', sid, rnd.choice([1, 1, 2]), rnd.random() < 0.1))
+            script.append(('P', sid, rnd.choice([1, 1, 2, 3, 4, 5]), rnd.random() < 0.1))
         elif hostile_ok:
             q = rnd.random()
             if q < 0.25:
@@ -390,7 +390,7 @@ def run(tier, replay=None):
     tick('deviations present in the tree under test: %s' % present)
 
     # 2. every environment history of the model (variant Dev = deviations present) up to the bound (spec -> code)
-    hist_cfgs = ['cuts', 'three', 'nr', 'fw', 'hostile', 'pay']
+    hist_cfgs = ['cuts', 'three', 'nr', 'fw', 'hostile', 'pay', 'struct']
     wd = tlc.workdir('c19cfg')
     try:
         def do_hist(c):
@@ -495,6 +495,33 @@ def run(tier, replay=None):
                     items.append(({'fw': '--', 'script': script, 'seed': seed, 'origin': 'no-result-enum'},
                                   run_script('--', script, seed)))
 
+    # 2b'''. payloads made of the wire format's own material: objects keyed name / value / id / meta ...
+    # and strings of JSON structural characters, as arguments and as results; whole, and cut into two
+    # reads at EVERY byte offset of the packet, and into reads of a fixed small size
+    def add_struct(script, seed, origin='struct-enum'):
+        items.append(({'fw': '--', 'script': script, 'seed': seed, 'origin': origin}, run_script('--', script, seed)))
+
+    for j in range(6 if quick else 40):
+        for pay, v in (('wirekey', 3), ('brace', 4), ('struct', 5), ('plain', 3), ('wirekey', 5)):
+            add_struct([('S', 's', pay, 'ok'), ('Rb', 0, 4096), ('P', 1, v, False), ('Rb', 1, 4096)], ctx.seed * 17 + j)
+    from .c19_world import World
+    for j in range(1 if quick else 4):
+        seed = ctx.seed * 29 + j
+        for pay, v in ((('struct', 5),) if quick else (('struct', 5), ('brace', 4), ('wirekey', 3))):
+            probe = World('--', seed)
+            probe.step_send('s', pay, 'ok')
+            ncall = len(probe.streams[(0, 0)].data)
+            probe.step_read(0, 4096, unit='bytes')
+            probe.step_release(1, v, False)
+            nreply = len(probe.streams[(0, 1)].data)
+            pre = [('S', 's', pay, 'ok')]
+            for c in range(1, ncall):
+                add_struct(pre + [('Rb', 0, c), ('Rb', 0, 4096), ('P', 1, v, False), ('Rb', 1, 4096)], seed)
+            for c in range(1, nreply):
+                add_struct(pre + [('Rb', 0, 4096), ('P', 1, v, False), ('Rb', 1, c), ('Rb', 1, 4096)], seed)
+            for size in (1, 2, 3, 5, 8, 13, 21, 34, 55):
+                add_struct(pre + [('Rb', 0, size)] * (-(-ncall // size)) + [('P', 1, v, False)] + [('Rb', 1, size)] * (-(-nreply // size)), seed)
+
     # 2c. one process holding two connections (Node with two peers): sends on both, every order of
     # arrival and completion (outside the model, which has one connection; judged by the same monitor)
     two = []
@@ -559,7 +586,7 @@ def run(tier, replay=None):
 
     # 4. binding demonstration: corrupted real traces must be rejected
     muts = []
-    pool = [w.log for _, w in accepted]
+    pool = [w.log for _, w in accepted if len(w.log) < 200]
     rnd.shuffle(pool)
     for lines in pool:
         if len(muts) >= (80 if quick else 600):
